@@ -1262,6 +1262,26 @@ def make_ctor_cfgs(ctx: Ctx):
         c.update(kind="pruned", radius=radius, r_sectors=rs, d=d, s=(["list", ds] if use_s else ["none"]),
                  rgrid=rand_rgrid_arg(rng, c["atnums"], allow_none=(n <= 2)), tag="pruned")
         cfgs.append(c)
+    # ---- default radial grids (rgrid=None) for molecules of DIFFERENT elements, every constructor
+    for n, atn in ((2, [8, 1]), (3, [1, 6, 1])):
+        base = {"atnums": atn, "coords": rand_coords(rng, n), "rotate": 3 * n, "store": n == 3, "aim": "pow2", "rgrid": ["none"], "tag": "default-rgrid"}
+        cfgs.append(dict(base, kind="size", size=6))
+        cfgs.append(dict(base, kind="preset", preset=["one", "coarse"]))
+        rs, ds = rand_sectors(rng, n)
+        cfgs.append(dict(base, kind="pruned", radius=["scalar", 1.0], r_sectors=rs, d=["list", ds], s=["none"]))
+    # ---- s_sectors together with every form of d_sectors (s_sectors wins), sizes that no degree list reproduces
+    for n in (1, 3):
+        rs, ss = rand_sectors(rng, n, sizes=True)
+        base = {"kind": "pruned", "atnums": [8, 1, 1][:n], "coords": rand_coords(rng, n), "rotate": 2, "store": False, "aim": "pow2",
+                "rgrid": ["one", 1], "radius": ["scalar", 1.0], "r_sectors": rs, "s": ["list", ss], "tag": "s-with-d"}
+        cfgs.append(dict(base, d=["omit"]))
+        cfgs.append(dict(base, d=["int", 3]))
+        cfgs.append(dict(base, d=["list", rand_sectors(rng, n)[1]]))
+    # ---- default (Becke) weights on 4..6 atoms: BeckeWeights.__call__ works in several chunks from 4 atoms on
+    for n in (4, 5, 6):
+        atn = [8, 1, 6, 1, 7, 1][:n]
+        cfgs.append({"kind": "size", "atnums": atn, "coords": rand_coords(rng, n), "rotate": n, "store": n % 2 == 0, "aim": "none",
+                     "size": [6, 14, 26][n - 4], "rgrid": ["one", [4, 1, 0][n - 4]], "tag": "becke-chunks"})
     # ---- dicts whose keys (atomic numbers) are also valid atom indices: index-vs-atomic-number confusion is silent
     conf_atn = [2, 3, 1, 4, 2]
     conf_xyz = [[0.0, 0.0, 0.0], [2.0, 0.0, 0.0], [0.0, 2.0, 0.0], [0.0, 0.0, 2.0], [2.0, 2.0, 0.0]]
@@ -1345,6 +1365,18 @@ def diff_ctor(ctx: Ctx, cfg, table, defaults, report, int_known):
             report(ncoords, ob, key, d[:120],
                    f"MolGrid.from_{kind}(...) differs from MolGrid(atnums, [atomic grids built by hand with the same arguments], aim, store): {d[:160]}",
                    {"cfg": cfg, "calls": calls})
+        if kind == "pruned":  # the translated normalisation may differ from the documented meaning of the arguments
+            doc = fanout_py(cfg, table, defaults, documented=True)
+            if doc is not None and doc != calls:
+                s3, refdoc = observe(lambda: by_hand(cfg, doc, table, defaults))
+                dd = grid_diff(mg, refdoc[0], refdoc[2]) if s3 == "ok" else None
+                if dd is not None:
+                    report(ncoords, "fanout_pruned_spec", key + ":documented", dd[:120],
+                           "MolGrid.from_pruned(...) differs from MolGrid(atnums, [AtomGrid.from_pruned with the documented per-atom d_sectors / s_sectors "
+                           f"(s_sectors used when given, an integer standing for every sector)], aim, store): {dd[:160]}", {"cfg": cfg, "calls": doc})
+        if cfg["aim"] in ("none", "becke"):  # the default atom-in-molecule weights against an un-chunked reference
+            for obl, what, obs, text in becke_problems(mg, cfg["atnums"]):
+                report(ncoords, obl, f"{key}:{what}", obs, f"MolGrid.from_{kind} ({len(cfg['atnums'])} atoms, Becke weights): {text}", {"cfg": cfg})
     return f"{coq_fanout(cfg, defaults)} {enc_calls(kind, calls, table)}"
 
 
@@ -1372,6 +1404,127 @@ def corr_fanout(ctx: Ctx, table, defaults, report):
         report(0, "corr_model_fanout", "model:" + cfg_key(cfgs[i]), None,
                f"the model's fan-out differs from the per-atom call list used for the by-hand build ({cfgs[i]['tag']})", {"cfg": cfgs[i]}, found=False)
     return cfgs, int_known
+
+
+# ====================================================================== independent Becke reference (default aim weights)
+BECKE_TOL = 1e-10
+
+
+def becke_reference(points, atcoords, atnums, indices, order=3):
+    """w_A(r_j) for the atom A whose slice contains point j, straight from Becke's 1988 formulas (Bragg-Slater radii,
+    a_AB clipped to +-0.45, f iterated `order` times), evaluated point by point on the WHOLE array at once
+    (no chunking, no sector bookkeeping).  None if a radius is not tabulated."""
+    from grid.utils import get_cov_radii
+
+    points = np.asarray(points, dtype=float)
+    atcoords = np.asarray(atcoords, dtype=float)
+    rad = np.asarray(get_cov_radii(np.asarray(atnums), "bragg"), dtype=float)
+    if not np.all(np.isfinite(rad)) or np.any(rad <= 0):
+        return None
+    m = len(atcoords)
+    dist = np.sqrt(((points[None, :, :] - atcoords[:, None, :]) ** 2).sum(axis=2))  # (atoms, points)
+    cell = np.ones((m, len(points)))
+    for b in range(m):
+        for c in range(m):
+            if c == b:
+                continue
+            rbc = math.sqrt(sum((atcoords[b][i] - atcoords[c][i]) ** 2 for i in range(3)))
+            mu = (dist[b] - dist[c]) / rbc
+            u = (rad[b] - rad[c]) / (rad[b] + rad[c])
+            a = u / (u * u - 1.0)
+            a = max(-0.45, min(0.45, a))
+            nu = mu + a * (1.0 - mu * mu)
+            for _ in range(order):
+                nu = 1.5 * nu - 0.5 * nu ** 3
+            cell[b] *= 0.5 * (1.0 - nu)
+    tot = cell.sum(axis=0)
+    out = np.empty(len(points))
+    for k in range(m):
+        a0, b0 = int(indices[k]), int(indices[k + 1])
+        out[a0:b0] = cell[k, a0:b0] / tot[a0:b0]
+    return out
+
+
+def becke_problems(mg, atnums, atom_weights=None):
+    """Disagreements of a Becke-weighted molecular grid with the property: aim_weights[j] = w_A(points[j]) for the atom A
+    of the slice, weights = atomic weights x aim weights (correctly rounded), integral = sum_A atomic integral of w_A f.
+    Returns [(obligation, what, observed, text)]."""
+    out = []
+    pts, ind = np.asarray(mg.points), np.asarray(mg.indices)
+    ref = becke_reference(pts, mg.atcoords, atnums, ind)
+    if ref is None:
+        return out
+    aim = np.asarray(mg.aim_weights, dtype=float)
+    if aim.shape != ref.shape:
+        return [("weights_product", "aim_weights-shape", str(aim.shape), f".aim_weights has shape {aim.shape}, the grid has {len(ref)} points")]
+    bad = np.where(~(np.abs(aim - ref) <= BECKE_TOL))[0]
+    if len(bad):
+        j = int(bad[0])
+        k = int(np.searchsorted(ind, j, side="right")) - 1
+        out.append(("weights_product", "becke-aim", [j, float(aim[j])],
+                    f"aim_weights[{j}] = {aim[j]!r} at point {pts[j].tolist()} of atom {k}, but Becke's weight function of atom {k} there is "
+                    f"{ref[j]!r} ({len(bad)} of {len(ref)} points differ by more than {BECKE_TOL})"))
+    atw = np.asarray(mg.atweights, dtype=float)
+    w = np.asarray(mg.weights, dtype=float)
+    prod = atw * aim
+    if w.shape != prod.shape or w.tobytes() != prod.tobytes():
+        j = int(np.argmax(w != prod)) if w.shape == prod.shape else 0
+        out.append(("weights_product", "becke-weights", [j, float(w[j]) if len(w) > j else 0.0],
+                    f"weights[{j}] is not atweights[{j}] * aim_weights[{j}]"))
+    # integral of a smooth function: sum over atoms of the atomic-grid integral of w_A * f with the reference w_A
+    cen = np.asarray(mg.atcoords).mean(axis=0)
+    f = np.exp(-0.3 * ((pts - cen) ** 2).sum(axis=1)) * (1.0 + 0.25 * pts[:, 0])
+    got = float(mg.integrate(f))
+    terms = atw * ref * f
+    want = math.fsum(terms)
+    mag = math.fsum(np.abs(terms))
+    if not abs(got - want) <= 1e-11 * mag + 1e-300:
+        out.append(("integral_decomposes", "becke-integral", got,
+                    f"integrate(f) = {got!r}, the sum over atoms of the atomic-grid integrals of w_A*f (Becke's w_A) is {want!r}"))
+    return out
+
+
+def corr_becke(ctx: Ctx, report):
+    """MolGrid(atnums, atgrids, BeckeWeights(order=3)) on 1..6 real atomic grids: concatenation exact, aim weights
+    against the un-chunked reference, weights = correctly rounded product, integral = sum of the atomic integrals."""
+    from grid.becke import BeckeWeights
+    from grid.molgrid import MolGrid
+
+    rng = ctx.rng
+    nmol = 8 if ctx.quick else 40
+    for it in range(nmol):
+        n = [1, 2, 3, 4, 5, 6, 4, 5][it % 8]
+        used = []
+        atoms = [rand_atom(rng, "real", used) for _ in range(n)]
+        atnums = [rng.choice([1, 1, 6, 7, 8, 9, 16]) for _ in range(n)]
+        store = bool(it % 2)
+        spec = {"atnums": atnums, "atoms": atoms, "aim": {"type": "becke"}, "store": store}
+        key0 = json.dumps(spec, separators=(",", ":"))
+        objs = [build_atom(a) for a in atoms]
+        ctx.case(("becke", it))
+        ctx.count(f"becke-atoms={n}")
+        st, mg = observe(lambda: MolGrid(np.array(atnums), objs, BeckeWeights(order=3), store=store))
+        if st == "exc":
+            report(n, "corr_init", f"init:{key0}", mg, f"MolGrid(..., BeckeWeights(order=3)) raised {mg}", {"spec": spec})
+            continue
+        for obl, what, obs, text in becke_spec_problems(mg, objs, atnums):
+            report(n, obl, f"{what}:{key0}", obs, f"MolGrid on {n} atomic grids with BeckeWeights(order=3), store={store}: {text}", {"spec": spec})
+
+
+def becke_spec_problems(mg, objs, atnums):
+    out = []
+    pts = np.vstack([g.points for g in objs])
+    atw = np.hstack([g.weights for g in objs])
+    ind = np.concatenate([[0], np.cumsum([g.size for g in objs])])
+    if np.asarray(mg.points).tobytes() != pts.tobytes():
+        out.append(("points_concat", "points", None, ".points is not the concatenation of the atomic grids' points"))
+    if np.asarray(mg.atweights).tobytes() != atw.tobytes():
+        out.append(("points_concat", "atweights", None, ".atweights is not the concatenation of the atomic grids' weights"))
+    if [int(x) for x in mg.indices] != [int(x) for x in ind]:
+        out.append(("indices_delimit", "indices", [int(x) for x in mg.indices], f".indices = {list(mg.indices)}, the atomic sizes give {list(ind)}"))
+    if out:
+        return out
+    return becke_problems(mg, atnums)
 
 
 # ====================================================================== end-to-end clause (partial: search only)
@@ -1580,6 +1733,8 @@ def run(ctx: Ctx):
                f"molgrid[{k}] with store=True returns the atomic weights {obs[:4]}, not atomic x aim weights {want[:4]}", {"kind": "getitem", "spec": spec, "index": k})
     ctx.cov["getitem_store_true_atomic_weights_observations"] = len(known_getitem)
 
+    corr_becke(ctx, report)
+
     # ---------------------------------------------------------------- (2) constructors vs by-hand
     cfgs, int_known = corr_fanout(ctx, table, defaults, report)
     seen_d = seen_s = False
@@ -1624,7 +1779,9 @@ def run(ctx: Ctx):
         "in Python with an exact-Fraction oracle.  (2) from_size/from_preset/from_pruned with OneDGrid/list/dict/None radial grids, str/list/dict "
         "presets, d_sectors vs s_sectors, scalar/list/array radius, rotate in {default, 0, False, 1, 37, random}, store in {default, False, True}, "
         "aim in {default, BeckeWeights(3), callable, array}: the model's fan-out (equality checked in Coq) drives a by-hand build; bitwise equality. "
-        "(3) end-to-end: census of (preset, element) constructibility with default radial grids, fixed probes, systematic scan (thorough) and "
+        "(2b) default Becke weights: MolGrid on 1..6 real atomic grids and the Becke-weighted constructor configurations (incl. fixed 4/5/6-atom ones, "
+        "where BeckeWeights.__call__ works in several chunks) against an independent un-chunked point-by-point reference (1e-10), weights = product, "
+        "integral = sum of atomic integrals of w_A f (1e-11 relative).  (3) end-to-end: census of (preset, element) constructibility with default radial grids, fixed probes, systematic scan (thorough) and "
         "seeded random molecules.  distinct = (molecule, aim, store, observable) / configuration / (preset, molecule, exponents)")
     ctx.cov["molecules"] = len(groups)
     ctx.cov["coq_cases_init"] = sum(len(c) for _, c in groups)
@@ -1634,6 +1791,8 @@ def run(ctx: Ctx):
         "bigQ correspondence and by the constructor-vs-by-hand differential on every run",
         "an atomic grid is what MolGrid reads of it (.points, .weights, .center, .size); hypothesis wf_atgrid: len(points) == len(weights) (true of "
         "every AtomGrid); NumPy slice assignment a[s:e] = v with len(v) == e - s replaces exactly that range",
+        "independent float64 re-implementation of Becke's 1988 weight function (Bragg-Slater radii read from grid.utils.get_cov_radii) as the reference "
+        "for the default aim weights, tolerance 1e-10",
         "the aim-weight callable, BeckeWeights(order=3), AtomGrid(...), AtomGrid.from_preset, AtomGrid.from_pruned are Section variables (black boxes)",
         "numpy float multiplication is exact when one factor is a signed power of two / on the small dyadics used; np.einsum order is irrelevant in exact arithmetic",
         "ast extraction of the constructor signatures/defaults and of _DEFAULT_POWER_RTRANSFORM_PARAMS (fail closed; validated against the imported module)",
@@ -1709,6 +1868,14 @@ def replay(rp):
 
         spec = rp["spec"]
         objs = [build_atom(a) for a in spec["atoms"]]
+        if spec["aim"]["type"] == "becke":
+            from grid.becke import BeckeWeights
+
+            mg = MolGrid(np.array(spec["atnums"]), objs, BeckeWeights(order=3), store=spec["store"])
+            probs = becke_spec_problems(mg, objs, spec["atnums"])
+            for _, _, _, text in probs:
+                print("DISAGREEMENT:", text)
+            return 1 if probs else 0
         atoms_obs = [view_obs(g) for g in objs]
         size = sum(g.size for g in objs)
         st, mg = observe(lambda: MolGrid(np.array(spec["atnums"]), objs, build_aim(spec["aim"], size), store=spec["store"]))
